@@ -153,6 +153,14 @@ def check(ctx, rep):
     check_pending_wakers(rep, 'R05.c', core, time)
     # ---- R05.d / R05.e legacy futures
     check_legacy_futures(rep, 'R05.d', 'R05.e', core)
+    # R05.f: every host hands on every output it pulls from a hosted command: no CommandOutput / effect / event value is dropped on a normal
+    # path of a hosting function (the linear rule of C01 restricted to the hosts), whatever the state of the hosted command
+    rep.rule('R05.f', 'no host drops an output it has pulled from a hosted command', floor=1)
+    HOSTS = ('capability::CommandSpawner', 'command::stream::', 'command::Command', 'capability::ProtoContext')
+    n_host = len([1 for f in core.elab if any(h in f.npath for h in HOSTS)])
+    c01.check_linear(rep, core, 'default', rid='R05.f', only=lambda f, ty: any(h in f.npath for h in HOSTS) and
+                     ('CommandOutput' in ty or ty in ('Effect', 'Event') or 'SendError' in ty))
+    rep.expect('R05.f', n_host >= 5, 'hosts-analysed', '%d hosting bodies analysed in drop-elaborated MIR' % n_host, 'hosting functions not found')
     rep.assume('futures::channel::mpsc wakes its registered receiver task on send and on sender drop (third-party contract)')
     rep.assume('AtomicWaker::register/wake pairing is race-free (futures contract)')
 
